@@ -8,7 +8,7 @@ git -C /repo worktree add --detach "$wt" HEAD -q || exit 2
 if ! git -C "$wt" apply "$patch" 2>/dev/null; then
   if ! git -C "$wt" apply --3way "$patch" 2>/dev/null; then echo "PATCH-DOES-NOT-APPLY $patch"; git -C /repo worktree remove --force "$wt"; exit 3; fi
 fi
-cd /verif
+cd "$(dirname "$0")/.."
 VSIM_REPO="$wt" ./check "$prop" --no-evidence "$@" 2>&1 | grep -v "^KNOWN-FINDING" | tail -4
 rc=$?
 git -C /repo worktree remove --force "$wt"
